@@ -28,22 +28,24 @@ Definition E_SPLIT := 12.                 (* not grouped: a chromosome comes bac
 (* ================= text level ================= *)
 (* ASCII part of char::is_whitespace (str::trim_end): space, \t \n \v \f \r *)
 Definition is_ws (b : N) : bool := (b =? 32) || ((9 <=? b) && (b <=? 13)).
-Definition trim_end (l : list N) : list N := rev (skip_while is_ws (rev l)).
+(* list reversal in linear time (the stdlib's [rev] is quadratic; lines can be long) *)
+Definition frev {X} (l : list X) : list X := rev_append l [].
+Definition trim_end (l : list N) : list N := frev (skip_while is_ws (frev l)).
 
 (* BufRead::read_line pieces: a line ends after each \n; a last piece without \n is a line if it
    is non-empty.  The \n itself is dropped here: both readers trim_end the line first. *)
 Fixpoint lines_aux (cur : list N) (text : list N) : list (list N) :=
   match text with
-  | [] => match cur with [] => [] | _ => [rev cur] end
-  | b :: r => if b =? 10 then rev cur :: lines_aux [] r else lines_aux (b :: cur) r
+  | [] => match cur with [] => [] | _ => [frev cur] end
+  | b :: r => if b =? 10 then frev cur :: lines_aux [] r else lines_aux (b :: cur) r
   end.
 Definition lines_of (text : list N) : list (list N) := lines_aux [] text.
 
 (* str::split(sep): the first piece always exists *)
 Fixpoint split_aux (sep : N) (cur : list N) (l : list N) : list N * list (list N) :=
   match l with
-  | [] => (rev cur, [])
-  | b :: r => if b =? sep then let (f, more) := split_aux sep [] r in (rev cur, f :: more)
+  | [] => (frev cur, [])
+  | b :: r => if b =? sep then let (f, more) := split_aux sep [] r in (frev cur, f :: more)
               else split_aux sep (b :: cur) r
   end.
 Definition split_on (sep : N) (l : list N) : list N * list (list N) := split_aux sep [] l.
